@@ -284,12 +284,18 @@ Proof.
   rewrite bitZ_b2z by lia. apply bit_b2z.
 Qed.
 
+Lemma nth_seqZ a b i d : 0 <= i < b - a -> nth (Z.to_nat i) (seqZ a b) d = a + i.
+Proof.
+  intros. unfold seqZ.
+  rewrite (nth_indep _ d ((fun k : nat => a + Z.of_nat k) 0%nat)) by (rewrite map_length, seq_length; lia).
+  rewrite (map_nth (fun k : nat => a + Z.of_nat k)). rewrite seq_nth by lia. lia.
+Qed.
+
 Lemma getZ_bitlist n a i : 0 <= n -> 0 <= a < 2 ^ n -> 0 <= i -> getZ (bitlist n a) i = b2z (Z.testbit a i).
 Proof.
   intros Hn Ha Hi. unfold getZ, bitlist. destruct (Z.ltb_spec i n) as [Hlt|Hge].
   - rewrite (nth_indep _ 0 (bitZ a 0)) by (rewrite map_length, seqZ_length; lia).
-    rewrite map_nth. unfold seqZ. rewrite (nth_indep _ 0 (0 + Z.of_nat 0)) by (rewrite map_length, seq_length; lia).
-    rewrite map_nth, seq_nth by lia. rewrite bitZ_b2z by lia. f_equal. f_equal. lia.
+    rewrite (map_nth (fun i0 => bitZ a i0)). rewrite nth_seqZ by lia. rewrite bitZ_b2z by lia. reflexivity.
   - rewrite nth_overflow by (rewrite map_length, seqZ_length; lia).
     rewrite <- (Z.mod_small a (2 ^ n)) by lia. rewrite Z.mod_pow2_bits_high by lia. reflexivity.
 Qed.
@@ -329,7 +335,7 @@ Lemma CountLeadingZeros_correct aw rw a : 1 <= aw -> Z.log2_up aw <= rw -> 0 <= 
   m_CountLeadingZeros aw rw a = (spec_clz aw rw a, spec_clz_z a).
 Proof.
   intros Haw Hrw Ha. unfold m_CountLeadingZeros. cbv zeta.
-  set (k := Z.log2_up aw). assert (Hk : 0 <= k) by apply Z.log2_up_nonneg.
+  set (k := Z.log2_up aw). assert (Hk : 0 <= k) by apply Z.log2_up_nonneg. assert (Hkrw : k <= rw) by exact Hrw.
   set (N := 2 ^ k). assert (HN : aw <= N) by (apply log2_up_le_pow; lia).
   assert (HaN : 0 <= a < 2 ^ N) by (pose proof (pow2_le aw N ltac:(lia)); lia).
   assert (HN0 : 0 < N) by (apply pow2_pos; lia).
@@ -356,8 +362,8 @@ Proof.
     rewrite Mux2_eq by lia. change (1 - 1) with 0. change (0 mod 2 =? 1) with false. cbv iota.
     rewrite Hval. rewrite Z.max_l by lia.
     rewrite (umod_small k) by (fold N; lia).
-    rewrite ZeroExtend_eq, (umod_small rw) by lia.
+    rewrite ZeroExtend_eq, (umod_small rw (N - 1 - Z.log2 a)) by lia.
     destruct (Z.gtb_spec N aw) as [Hgt|Hle].
-    + rewrite Sub_eq, Constant_eq by lia. rewrite umod_sub_r, umod_umod by lia. f_equal. lia.
-    + rewrite (umod_small rw) by lia. f_equal. lia.
+    + rewrite Sub_eq, Constant_eq by lia. rewrite umod_sub_r, umod_umod by lia. f_equal. f_equal. lia.
+    + f_equal. f_equal. lia.
 Qed.
